@@ -203,6 +203,136 @@ let string_of_outcome ?(auth = true) ?(sortcors = false) (o : outcome) =
   let evs = List.filter_map (string_of_event ~auth ~sortcors) o.trace in
   Printf.sprintf "%d|%s" (int_of_nat o.status) (if evs = [] then "-" else String.concat ";" evs)
 
+(* ---------- parameters: O (oracle), P (operation declaration) lines ---------- *)
+let rec z_of_int n : z = if n = 0 then Z0 else if n > 0 then Zpos (pos_of_int n) else Zneg (pos_of_int (-n))
+and pos_of_int n : positive =
+  if n = 1 then XH else if n land 1 = 0 then XO (pos_of_int (n lsr 1)) else XI (pos_of_int (n lsr 1))
+
+let rec string_of_pos_acc (p : positive) : string =
+  (* decimal via repeated doubling on a digit list *)
+  let rec digits p = match p with
+    | XH -> [1]
+    | XO q -> dbl (digits q) 0
+    | XI q -> dbl (digits q) 1
+  and dbl ds carry =
+    (* ds little-endian decimal digits; returns 2*ds + carry *)
+    let rec go ds c = match ds with
+      | [] -> if c = 0 then [] else [c]
+      | d :: r -> let v = 2 * d + c in (v mod 10) :: go r (v / 10) in
+    go ds carry in
+  String.concat "" (List.rev_map string_of_int (digits p))
+
+let string_of_z (z : z) = match z with
+  | Z0 -> "0" | Zpos p -> string_of_pos_acc p | Zneg p -> "-" ^ string_of_pos_acc p
+
+let float_oracle : (string, string option) Hashtbl.t = Hashtbl.create 256
+let time_oracle : (string, string option) Hashtbl.t = Hashtbl.create 256
+
+let o_line args =
+  (match args with
+   | ["float"; bits; lex; r] -> Hashtbl.replace float_oracle (bits ^ ":" ^ lex) (if r = "ERR" then None else Some (unhex r))
+   | ["time"; lex; r] -> Hashtbl.replace time_oracle lex (if r = "ERR" then None else Some (unhex r))
+   | _ -> ());
+  "SKIP oracle"
+
+let parse_float_oracle (bits : z) (s : ascii list) : ascii list option =
+  let key = string_of_z bits ^ ":" ^ hex_of_str s in
+  match Hashtbl.find_opt float_oracle key with
+  | Some (Some r) -> Some (str_of_string r)
+  | Some None -> None
+  | None -> failwith ("missing float oracle " ^ key)
+
+let parse_time_oracle (s : ascii list) : ascii list option =
+  let key = hex_of_str s in
+  match Hashtbl.find_opt time_oracle key with
+  | Some (Some r) -> Some (str_of_string r)
+  | Some None -> None
+  | None -> failwith ("missing time oracle " ^ key)
+
+(* sch syntax: s i0 i32 i64 f32 f64 b t | n(<sch>) | a(<sch>) | r(<hexname>,<sch>) *)
+let parse_sch (t : string) : sch =
+  let n = String.length t in
+  let rec go i =
+    if i >= n then failwith "sch" else
+    match t.[i] with
+    | 's' -> (SPrim PStr, i + 1)
+    | 'b' -> (SPrim PBool, i + 1)
+    | 't' -> (SPrim PTime, i + 1)
+    | 'i' | 'f' ->
+      let j = ref (i + 1) in
+      while !j < n && t.[!j] >= '0' && t.[!j] <= '9' do incr j done;
+      let bits = z_of_int (int_of_string (String.sub t (i + 1) (!j - i - 1))) in
+      ((if t.[i] = 'i' then SPrim (PInt bits) else SPrim (PFloat bits)), !j)
+    | 'n' -> let (x, j) = go (i + 2) in (SNullable x, j + 1)
+    | 'a' -> let (x, j) = go (i + 2) in (SArr x, j + 1)
+    | 'r' ->
+      let c = String.index_from t i ',' in
+      let name = String.sub t (i + 2) (c - i - 2) in
+      let (x, j) = go (c + 1) in (SRef (str_of_hex name, x), j + 1)
+    | _ -> failwith ("sch " ^ t) in
+  fst (go 0)
+
+let parse_decls (t : string) : pdecl list =
+  if t = "-" then [] else
+    List.map (fun d -> match String.split_on_char ':' d with
+        | [n; r; sc] -> { d_name = str_of_hex n; d_required = (r = "1"); d_sch = parse_sch sc }
+        | _ -> failwith "decl") (split_on ';' t)
+
+let parse_dirs (t : string) : (ascii list * sch option) list =
+  List.map (fun d ->
+      if d.[0] = 'L' then (str_of_hex (String.sub d 1 (String.length d - 1)), None)
+      else match String.index_opt d ':' with
+        | Some i -> (str_of_hex (String.sub d 1 (i - 1)), Some (parse_sch (String.sub d (i + 1) (String.length d - i - 1))))
+        | None -> failwith "dir") (split_on ';' t)
+
+let opdecls : (string, opdecl) Hashtbl.t = Hashtbl.create 256
+
+let p_line args =
+  match args with
+  | pkg :: key :: rest ->
+    let kv = kv_of_args rest in
+    Hashtbl.replace opdecls (pkg ^ " " ^ key)
+      { od_query = parse_decls (List.assoc "q" kv); od_header = parse_decls (List.assoc "h" kv);
+        od_path = parse_dirs (List.assoc "p" kv) };
+    "SKIP opdecl"
+  | _ -> fail_line "P args"
+
+let rec dump_pval (v : pval) : string = match v with
+  | VS s -> "S(" ^ hex_of_str s ^ ")"
+  | VI z -> "I(" ^ string_of_z z ^ ")"
+  | VF r -> "F(" ^ string_of_str r ^ ")"
+  | VB b -> if b then "B(1)" else "B(0)"
+  | VT r -> "T(" ^ string_of_str r ^ ")"
+  | VL l -> "[" ^ String.concat "," (List.map dump_pval l) ^ "]"
+  | VP x -> "P(" ^ dump_pval x ^ ")"
+
+let dump_field (f : field) = match f with
+  | FVal v -> dump_pval v
+  | FMaybe None -> "N"
+  | FMaybe (Some v) -> "J(" ^ dump_pval v ^ ")"
+
+let dump_parsed (od : opdecl) (p : parsed) : string =
+  let sec l = "{" ^ String.concat "," (List.map dump_field l) ^ "}" in
+  let parts =
+    (if od.od_query <> [] then [sec p.pq] else [])
+    @ (if List.exists (fun (_, o) -> o <> None) od.od_path then [sec p.pp] else [])
+    @ (if od.od_header <> [] then [sec p.ph] else []) in
+  "{" ^ String.concat "," parts ^ "}"
+
+let model_parse pkg (s : rspec) (o : outcome) (rq : request) : string =
+  (* which operation ran? *)
+  let h = List.find_map (fun e -> match e with HandlerEv (m, raw, _) -> Some (m, raw) | _ -> None) o.trace in
+  match h with
+  | None -> "-"
+  | Some (m, raw) ->
+    (match Hashtbl.find_opt opdecls (pkg ^ " " ^ string_of_str m ^ ":" ^ hex_of_str raw) with
+     | None -> "-"
+     | Some od ->
+       (match parse_request parse_float_oracle parse_time_oracle (gen_base s) od rq with
+        | Ok p -> dump_parsed od p
+        | Err n -> "Err(" ^ hex_of_str n ^ ")"
+        | ErrOther -> "ErrOther"))
+
 let specs : (string, rspec) Hashtbl.t = Hashtbl.create 64
 
 let s_line args =
@@ -222,15 +352,19 @@ let r_line args =
     let rq = { q_method = str_of_string m; q_path = str_of_hex path;
                q_query = parse_pairs '=' query; q_headers = parse_pairs ':' hdrs } in
     let c = parse_cfg cfg in
-    "model=" ^ string_of_outcome (serve s c rq) ^ " spec=" ^ string_of_outcome ~auth:false ~sortcors:true (serve_spec s c rq)
+    let o = serve s c rq in
+    "model=" ^ string_of_outcome o ^ "|" ^ model_parse pkg s o rq
+    ^ " spec=" ^ string_of_outcome ~auth:false ~sortcors:true (serve_spec s c rq)
   | _ -> fail_line "R args"
 
 let dispatch line =
-  match String.split_on_char ' ' line with
+  match List.filter (fun t -> t = "" || t.[0] <> '#') (String.split_on_char ' ' line) with
   | "C19" :: args -> c19 args
   | "C13" :: args -> c13 args
   | "S" :: args -> s_line args
   | "D" :: _ -> "SKIP doc"
+  | "O" :: args -> o_line args
+  | "P" :: args -> p_line args
   | "R" :: args -> r_line args
   | _ -> fail_line ("unknown case: " ^ line)
 
